@@ -1,9 +1,11 @@
 (* C03 — TCP handshake packets are rendered into the p0f signature their headers define.
    Property theorems only; proofs live in Proofs/C03{Bytes,Fields,Options,Quirks,Main,Frame,Witness}.v.
    MODEL: Model/Pnet.v + Model/TcpExtract.v (pnet views, visit_tcp, ttl/window/mtu/ip_options, process.rs, Display).
-   SPEC : Spec/P0fTcp.v (decode4/decode6 = RFC header layouts, render = p0f signature language, known = K1..K7).
+   SPEC : Spec/P0fTcp.v (decode4/decode6 = RFC header layouts, render = p0f signature language, known = K1..K5).
    wf pkt is `decode4 p = Some s` / `decode6 p = Some s`: the bytes are a complete, well-formed IPv4/IPv6 TCP
-   segment (option area arbitrary).  known s r = reportable s && (K1 s || K2 s || K3 s || K4 r || K5 s || K7 s). *)
+   segment (option area arbitrary).  known s r = reportable s && (K1 s || K2 s || K3 s || K4 r || K5 s); K5 is now "malformed options" only.
+   Repaired in /repo and dropped from `known`: K7 (MSS + header divisor built from header words) and the NS-bit
+   half of K5; their old witnesses are kept as *_former_witness_agrees. *)
 From Coq Require Import List NArith Bool.
 From Coq Require Import Strings.Byte.
 From HN Require Import Base.Bytes Model.SigAst Model.Pnet Model.TcpExtract Spec.P0fTcp Gen.Mtu
@@ -175,16 +177,17 @@ Check C03_window_value_raw :
     detect_win_multiplicator w mss hdr ts v = WValue x -> x = w.
 Print Assumptions C03_window_value_raw.
 
-(* window class = SPEC (priority MSS multiple > modulus > MTU multiple > raw) whenever the K7 divisor makes no difference *)
+(* window class = SPEC (priority MSS multiple > modulus > MTU multiple > raw) for every 16-bit window and every MSS,
+   with the header size visit_tcp hands to detect_win_multiplicator (40 / 60 bytes); no exclusion any more *)
 Theorem C03_window_spec :
-  forall (v : ip_version) (w m hdr : N) (ts : bool),
-    v <> IpAny -> 0 < hdr -> k7_cond v w m hdr ts = false ->
-    detect_win_multiplicator w m hdr ts v = spec_window v w (Some m) ts.
+  forall (v : ip_version) (w m : N) (ts : bool),
+    v <> IpAny -> w < 65536 ->
+    detect_win_multiplicator w m (min_total_header v) ts v = spec_window v w (Some m) ts.
 Proof. exact window_spec. Qed.
 Check C03_window_spec :
-  forall (v : ip_version) (w m hdr : N) (ts : bool),
-    v <> IpAny -> 0 < hdr -> k7_cond v w m hdr ts = false ->
-    detect_win_multiplicator w m hdr ts v = spec_window v w (Some m) ts.
+  forall (v : ip_version) (w m : N) (ts : bool),
+    v <> IpAny -> w < 65536 ->
+    detect_win_multiplicator w m (min_total_header v) ts v = spec_window v w (Some m) ts.
 Print Assumptions C03_window_spec.
 
 (* option walk: on option areas without a malformed option and without bytes after EOL, layout / MSS / window scale are
@@ -354,38 +357,50 @@ Check Known_K5_bad_refuted :
     /\ show_out (process_ipv4_packet mtu_table p) <> show_out (render mtu_table s).
 Print Assumptions Known_K5_bad_refuted.
 
-Theorem Known_K5_ns_refuted :
-  exists (p : bytes) (s : segment),
-    decode4 p = Some s /\ K5 s = true /\ known s (process_ipv4_packet mtu_table p) = true
-    /\ show_out (process_ipv4_packet mtu_table p) <> show_out (render mtu_table s).
-Proof. exact Known_K5_ns_refuted_l. Qed.
-Check Known_K5_ns_refuted :
-  exists (p : bytes) (s : segment),
-    decode4 p = Some s /\ K5 s = true /\ known s (process_ipv4_packet mtu_table p) = true
-    /\ show_out (process_ipv4_packet mtu_table p) <> show_out (render mtu_table s).
-Print Assumptions Known_K5_ns_refuted.
+(* repaired classes: on the former witnesses the model (= the repaired code) and the SPEC now agree, in no known class *)
+Theorem K5_ns_former_witness_agrees :
+  exists s : segment,
+    decode4 w_K5_ns = Some s /\ known s (process_ipv4_packet mtu_table w_K5_ns) = false
+    /\ show_out (process_ipv4_packet mtu_table w_K5_ns) = show_out (render mtu_table s).
+Proof. exact K5_ns_former_witness_agrees_l. Qed.
+Check K5_ns_former_witness_agrees :
+  exists s : segment,
+    decode4 w_K5_ns = Some s /\ known s (process_ipv4_packet mtu_table w_K5_ns) = false
+    /\ show_out (process_ipv4_packet mtu_table w_K5_ns) = show_out (render mtu_table s).
+Print Assumptions K5_ns_former_witness_agrees.
 
-Theorem Known_K7_refuted :
-  exists (p : bytes) (s : segment),
-    decode4 p = Some s /\ K7 s = true /\ known s (process_ipv4_packet mtu_table p) = true
-    /\ show_out (process_ipv4_packet mtu_table p) <> show_out (render mtu_table s).
-Proof. exact Known_K7_refuted_l. Qed.
-Check Known_K7_refuted :
-  exists (p : bytes) (s : segment),
-    decode4 p = Some s /\ K7 s = true /\ known s (process_ipv4_packet mtu_table p) = true
-    /\ show_out (process_ipv4_packet mtu_table p) <> show_out (render mtu_table s).
-Print Assumptions Known_K7_refuted.
+Theorem K7_former_witness_agrees :
+  exists s : segment,
+    decode4 w_K7_a = Some s /\ known s (process_ipv4_packet mtu_table w_K7_a) = false
+    /\ show_out (process_ipv4_packet mtu_table w_K7_a) = show_out (render mtu_table s).
+Proof. exact K7_a_former_witness_agrees_l. Qed.
+Check K7_former_witness_agrees :
+  exists s : segment,
+    decode4 w_K7_a = Some s /\ known s (process_ipv4_packet mtu_table w_K7_a) = false
+    /\ show_out (process_ipv4_packet mtu_table w_K7_a) = show_out (render mtu_table s).
+Print Assumptions K7_former_witness_agrees.
 
-Theorem Known_K7_v6_refuted :
-  exists (p : bytes) (s : segment),
-    decode6 p = Some s /\ K7 s = true /\ known s (process_ipv6_packet mtu_table p) = true
-    /\ show_out (process_ipv6_packet mtu_table p) <> show_out (render mtu_table s).
-Proof. exact Known_K7_v6_refuted_l. Qed.
-Check Known_K7_v6_refuted :
-  exists (p : bytes) (s : segment),
-    decode6 p = Some s /\ K7 s = true /\ known s (process_ipv6_packet mtu_table p) = true
-    /\ show_out (process_ipv6_packet mtu_table p) <> show_out (render mtu_table s).
-Print Assumptions Known_K7_v6_refuted.
+Theorem K7_b_former_witness_agrees :
+  exists s : segment,
+    decode4 w_K7_b = Some s /\ known s (process_ipv4_packet mtu_table w_K7_b) = false
+    /\ show_out (process_ipv4_packet mtu_table w_K7_b) = show_out (render mtu_table s).
+Proof. exact K7_b_former_witness_agrees_l. Qed.
+Check K7_b_former_witness_agrees :
+  exists s : segment,
+    decode4 w_K7_b = Some s /\ known s (process_ipv4_packet mtu_table w_K7_b) = false
+    /\ show_out (process_ipv4_packet mtu_table w_K7_b) = show_out (render mtu_table s).
+Print Assumptions K7_b_former_witness_agrees.
+
+Theorem K7_v6_former_witness_agrees :
+  exists s : segment,
+    decode6 w_K7_v6 = Some s /\ known s (process_ipv6_packet mtu_table w_K7_v6) = false
+    /\ show_out (process_ipv6_packet mtu_table w_K7_v6) = show_out (render mtu_table s).
+Proof. exact K7_v6_former_witness_agrees_l. Qed.
+Check K7_v6_former_witness_agrees :
+  exists s : segment,
+    decode6 w_K7_v6 = Some s /\ known s (process_ipv6_packet mtu_table w_K7_v6) = false
+    /\ show_out (process_ipv6_packet mtu_table w_K7_v6) = show_out (render mtu_table s).
+Print Assumptions K7_v6_former_witness_agrees.
 
 (* the hypotheses of C03_ipv4 / C03_ipv6 are satisfiable on ordinary handshake packets: a Linux-style SYN with 20
    option bytes (reported with MTU 1500, "Ethernet or modem") and an IPv6 SYN+ACK with a flow label *)
